@@ -24,7 +24,7 @@ theorem sumStep_panic (cfg : Cfg) (shares : List (VerifierShare F)) :
 theorem sumShares_fold (cfg : Cfg) (shares : List (VerifierShare F)) :
     ∀ (vs0 : List F) (parts0 : List Prio.Prio3.Bytes) (c0 : Nat) (vs : List F) (parts : List Prio.Prio3.Bytes) (count : Nat),
       shares.foldl (sumStep cfg) (Prio.Res.ok (vs0, parts0, c0)) = Prio.Res.ok (vs, parts, count) →
-      count = c0 + shares.length ∧ (shares ≠ [] → count < 256) ∧
+      count = c0 + shares.length ∧
       (∀ sh ∈ shares, sh.verifiers.length = cfg.t.verifierLen * cfg.numProofs) ∧
       vs = shares.foldl (fun acc sh => vadd acc sh.verifiers) vs0 ∧
       (cfg.t.jointRandLen > 0 → parts = parts0 ++ shares.filterMap (·.jointRandPart) ∧
@@ -38,58 +38,46 @@ theorem sumShares_fold (cfg : Cfg) (shares : List (VerifierShare F)) :
   | cons sh rest ih =>
     intro vs0 parts0 c0 vs parts count h
     simp only [List.foldl_cons] at h
-    by_cases h1 : c0 + 1 ≥ 256
-    · have step : sumStep cfg (Prio.Res.ok (vs0, parts0, c0)) sh = Prio.Res.panic := by
-        unfold sumStep; simp only []; rw [if_pos h1]
-      rw [step, sumStep_panic] at h; cases h
-    · by_cases h2 : sh.verifiers.length ≠ cfg.t.verifierLen * cfg.numProofs
-      · have step : sumStep cfg (Prio.Res.ok (vs0, parts0, c0)) sh = Prio.Res.err := by
-          unfold sumStep; simp only []; rw [if_neg h1, if_pos h2]
-        rw [step, sumStep_err] at h; cases h
-      · by_cases hj : cfg.t.jointRandLen > 0
-        · cases hp : sh.jointRandPart with
-          | none =>
-            have step : sumStep cfg (Prio.Res.ok (vs0, parts0, c0)) sh = Prio.Res.panic := by
-              unfold sumStep; simp only []; rw [if_neg h1, if_neg h2, if_pos hj, hp]
-            rw [step, sumStep_panic] at h; cases h
-          | some p =>
-            have step : sumStep cfg (Prio.Res.ok (vs0, parts0, c0)) sh =
-                Prio.Res.ok (vadd vs0 sh.verifiers, parts0 ++ [p], c0 + 1) := by
-              unfold sumStep; simp only []; rw [if_neg h1, if_neg h2, if_pos hj, hp]
-            rw [step] at h
-            simp only [ne_eq, Decidable.not_not] at h2
-            obtain ⟨e1, e2, e3, e4, e5⟩ := ih _ _ _ _ _ _ h
-            refine ⟨by simp; omega, ?_, ?_, by simpa using e4, ?_⟩
-            · intro _
-              by_cases hr : rest = []
-              · subst hr; simp at e1; omega
-              · exact e2 hr
-            · intro s hs
-              rcases List.mem_cons.mp hs with rfl | hs
-              · exact h2
-              · exact e3 s hs
-            · intro _
-              obtain ⟨f1, f2⟩ := e5 hj
-              refine ⟨by rw [f1]; simp [hp], ?_⟩
-              intro s hs
-              rcases List.mem_cons.mp hs with rfl | hs
-              · simp [hp]
-              · exact f2 s hs
-        · have step : sumStep cfg (Prio.Res.ok (vs0, parts0, c0)) sh =
-              Prio.Res.ok (vadd vs0 sh.verifiers, parts0, c0 + 1) := by
-            unfold sumStep; simp only []; rw [if_neg h1, if_neg h2, if_neg hj]
+    by_cases h2 : sh.verifiers.length ≠ cfg.t.verifierLen * cfg.numProofs
+    · have step : sumStep cfg (Prio.Res.ok (vs0, parts0, c0)) sh = Prio.Res.err := by
+        unfold sumStep; simp only []; rw [if_pos h2]
+      rw [step, sumStep_err] at h; cases h
+    · by_cases hj : cfg.t.jointRandLen > 0
+      · cases hp : sh.jointRandPart with
+        | none =>
+          have step : sumStep cfg (Prio.Res.ok (vs0, parts0, c0)) sh = Prio.Res.err := by
+            unfold sumStep; simp only []; rw [if_neg h2, if_pos hj, hp]
+          rw [step, sumStep_err] at h; cases h
+        | some p =>
+          have step : sumStep cfg (Prio.Res.ok (vs0, parts0, c0)) sh =
+              Prio.Res.ok (vadd vs0 sh.verifiers, parts0 ++ [p], c0 + 1) := by
+            unfold sumStep; simp only []; rw [if_neg h2, if_pos hj, hp]
           rw [step] at h
           simp only [ne_eq, Decidable.not_not] at h2
-          obtain ⟨e1, e2, e3, e4, _⟩ := ih _ _ _ _ _ _ h
-          refine ⟨by simp; omega, ?_, ?_, by simpa using e4, fun hh => absurd hh hj⟩
-          · intro _
-            by_cases hr : rest = []
-            · subst hr; simp at e1; omega
-            · exact e2 hr
+          obtain ⟨e1, e3, e4, e5⟩ := ih _ _ _ _ _ _ h
+          refine ⟨by simp; omega, ?_, by simpa using e4, ?_⟩
           · intro s hs
             rcases List.mem_cons.mp hs with rfl | hs
             · exact h2
             · exact e3 s hs
+          · intro _
+            obtain ⟨f1, f2⟩ := e5 hj
+            refine ⟨by rw [f1]; simp [hp], ?_⟩
+            intro s hs
+            rcases List.mem_cons.mp hs with rfl | hs
+            · simp [hp]
+            · exact f2 s hs
+      · have step : sumStep cfg (Prio.Res.ok (vs0, parts0, c0)) sh =
+            Prio.Res.ok (vadd vs0 sh.verifiers, parts0, c0 + 1) := by
+          unfold sumStep; simp only []; rw [if_neg h2, if_neg hj]
+        rw [step] at h
+        simp only [ne_eq, Decidable.not_not] at h2
+        obtain ⟨e1, e3, e4, _⟩ := ih _ _ _ _ _ _ h
+        refine ⟨by simp; omega, ?_, by simpa using e4, fun hh => absurd hh hj⟩
+        intro s hs
+        rcases List.mem_cons.mp hs with rfl | hs
+        · exact h2
+        · exact e3 s hs
 
 /-- **acceptance at the combiner implies**: exactly `num_aggregators` shares were combined, each of
     the declared length, every proof's verifier — the *sum* of the aggregators' verifier shares — was
@@ -113,7 +101,7 @@ theorem combine_accept_implies (C : FieldCtx F) (cfg : Cfg) (xof : Xof) (ctx : P
     rw [hs] at h
     simp only at h
     unfold sumShares at hs
-    obtain ⟨e1, _, e3, e4, e5⟩ := sumShares_fold cfg shares _ _ _ _ _ _ hs
+    obtain ⟨e1, e3, e4, e5⟩ := sumShares_fold cfg shares _ _ _ _ _ _ hs
     by_cases hc : count ≠ cfg.numAgg
     · rw [if_pos hc] at h; cases h
     · rw [if_neg hc] at h
@@ -142,16 +130,14 @@ theorem next_accept_implies (C : FieldCtx F) (cfg : Cfg) (cv : Conv F) (xof : Xo
     ∃ s, st.jointRandSeed = some s ∧ msg = some s :=
   verifyNext_ok_implies C cfg cv xof sumLW ctx st msg o h hj
 
-/-- more than 255 shares can never be combined (the counter is a byte): the model returns the Rust
-    panic, which the repaired code turns into an error -/
-theorem too_many_shares_not_accepted (cfg : Cfg) (shares : List (VerifierShare F)) (vs : List F)
-    (parts : List Prio.Prio3.Bytes) (count : Nat) (h : sumShares cfg shares = .ok (vs, parts, count)) :
-    shares.length < 256 := by
-  unfold sumShares at h
-  obtain ⟨e1, e2, _⟩ := sumShares_fold cfg shares _ _ _ _ _ _ h
-  by_cases hr : shares = []
-  · subst hr; simp
-  · have := e2 hr; omega
+/-- any number of shares other than `num_aggregators` — in particular 256 + `num_aggregators`, which a
+    byte-sized counter would have confused with `num_aggregators` — is refused, and never panics on
+    the count -/
+theorem wrong_count_not_accepted (C : FieldCtx F) (cfg : Cfg) (xof : Xof) (ctx : Prio.Prio3.Bytes)
+    (shares : List (VerifierShare F)) (hn : shares.length ≠ cfg.numAgg) (m : Option Prio.Prio3.Bytes) :
+    sharesToMessage C cfg xof ctx shares ≠ .ok m := by
+  intro h
+  exact hn (combine_accept_implies C cfg xof ctx shares m h).1
 
 /-- full-strength statement (not proved): altering any single element of a share changes an input of
     `decide` or of the seed comparison by a non-zero amount — the algebraic half of robustness; the
